@@ -345,6 +345,14 @@ def inv_worker(chunk):
     return res
 
 
+def inv_trace_run(histories):
+    with Scratch("c09it-") as dd:
+        tf = dd / "h.json"
+        tf.write_text(json.dumps(histories))
+        return tlc("Trace_ContextInvoke", "t.cfg", cfg_text="SPECIFICATION TSpec\nINVARIANT Emit\nCHECK_DEADLOCK FALSE\n",
+                   workers=1, env={"TRACE_FILE": str(tf)}, timeout=1800)
+
+
 INV_WHY_KEPT = ("; the as-coded model with the deviation EnvKeptOnAbort (the environment pushed on lua_env_stack by an "
                 "invocation that ends in an exception on the Python side -- missing / non-compiling / nil module, timeout, "
                 "non-UTF-8 result, also nested -- is not popped, so the following top-level invocations skip "
@@ -381,17 +389,22 @@ def invocation_histories(o, tier, gen, demo):
             exp = [inv_render(x) if x["k"] != "page" else "" for x in c["out"]]
             if "page" in c["hist"]:
                 rs = ("calls",)
-            elif len(c["hist"]) <= (3 if thorough else 2):
-                rs = INV_RENDERINGS
+            elif len(c["hist"]) <= 3 if thorough else (len(c["hist"]) == 2 and c["hist"][1] in INV_PREFIX and c["hist"][0] not in INV_PREFIX):
+                rs = INV_RENDERINGS     # quick: the pairs <failing or nested kind, probe>
             else:       # the longer histories take the renderings in turn
                 rs = (INV_RENDERINGS[n % len(INV_RENDERINGS)],)
             for r in rs:
                 items.append((dbdir, "%d-%s" % (n, r), c["hist"], r, exp))
         # slow (time limit) histories first, small chunks: they spread over the workers
         items.sort(key=lambda it: "timeout" not in it[2])
-        results = pmap(inv_worker, items, chunk=max(1, len(items) // 128))
         vitems = [(dbdir, "v%d" % n, h, "calls", None) for n, h in enumerate(vh)]
         vres = pmap(inv_worker, vitems, chunk=max(1, len(vitems) // 16))
+        # V: the recorded random histories are replayed through the model by TLC (in the background)
+        from concurrent.futures import ThreadPoolExecutor
+
+        bg = ThreadPoolExecutor(1)
+        f_rv = bg.submit(inv_trace_run, [[inv_abstract(k, t) for k, t in zip(h, got)] for h, (got, _) in zip(vh, vres)])
+        results = pmap(inv_worker, items, chunk=max(1, len(items) // 128))
     def judge(origin, hist, rendering, i, got, exp_i, again, kept_explains):
         kind = hist[i]
         case = {"origin": origin, "rendering": rendering, "history": hist[: i + 1], "invocation": inv_text(kind, rendering),
@@ -425,12 +438,8 @@ def invocation_histories(o, tier, gen, demo):
         i = next(j for j in range(len(hist)) if got[j] != exp[j])
         judge("I/G", hist, rendering, i, got, exp[i], again, bool(kept) and got == kept)
 
-    # V: the recorded random histories are replayed through the model by TLC
-    with Scratch("c09iv-") as dd:
-        tf = dd / "h.json"
-        tf.write_text(json.dumps([[inv_abstract(k, t) for k, t in zip(h, got)] for h, (got, _) in zip(vh, vres)]))
-        rv = tlc("Trace_ContextInvoke", "t.cfg", cfg_text="SPECIFICATION TSpec\nINVARIANT Emit\nCHECK_DEADLOCK FALSE\n",
-                 workers=1, env={"TRACE_FILE": str(tf)}, timeout=1800)
+    rv = f_rv.result()
+    bg.shutdown()
     o.add_tlc("Trace_ContextInvoke", rv)
     verdicts = {c["i"] - 1: c for c in rv.cases}
     if len(verdicts) != len(vh):
@@ -531,12 +540,7 @@ def run(tier: str) -> int:
 
 def inv_trace(histories):
     """histories = [[event, ...], ...] in the record shape of ContextInvoke!Out -> verdicts of Trace_ContextInvoke."""
-    with Scratch("c09it-") as dd:
-        tf = dd / "h.json"
-        tf.write_text(json.dumps(histories))
-        rv = tlc("Trace_ContextInvoke", "t.cfg", cfg_text="SPECIFICATION TSpec\nINVARIANT Emit\nCHECK_DEADLOCK FALSE\n",
-                 workers=1, env={"TRACE_FILE": str(tf)}, timeout=600)
-    return sorted(rv.cases, key=lambda c: c["i"])
+    return sorted(inv_trace_run(histories).cases, key=lambda c: c["i"])
 
 
 def inv_record(hist, rendering="calls"):
